@@ -28,6 +28,7 @@ theorem invB_loc_atm1 {s : State} {t : Tid} {e : Event} {x' : Thr} (hi : InvB s)
   | wwCasFail exp new obs hl => locB_case hl
   | wwRelCasOk exp new obs hl => by_cases hz : (s.thr t).list.isEmpty = true <;> simp only [hz, if_true, if_false] <;> locB_case hl
   | wwRelCasFail exp new obs hl => locB_case hl
+  | dbgLd obs hl ho => split <;> locB_case hl
   | _ => first | (simp [Event.isAtomic] at he; done) | (simp [Event.isRecLd] at he2; done)
 
 end NsyncVerif.CvFix
